@@ -47,6 +47,13 @@ def r_visit(P, R):
         plist = pa.function_paths(fn)
         R.count('paths', len(plist))
         last = fn.body[-1]
+        # collector: returns nothing, fills a container it was given
+        collector = all(
+            r.value is None or (isinstance(r.value, ast.Constant)
+                                and r.value.value is None)
+            for r in au.walk_no_defs(fn) if isinstance(r, ast.Return)) \
+            and not any(isinstance(x, (ast.Yield, ast.YieldFrom))
+                        for x in au.walk_no_defs(fn))
         bad = None
         full = 0
         for path in plist:
@@ -59,7 +66,12 @@ def r_visit(P, R):
             final = (ex[2] == 'fall') or (ex[1] is last) or (
                 isinstance(last, (ast.For, ast.If)) and any(
                     x is ex[1] for x in ast.walk(last)))
-            if not final or ex[2] in ('abort', 'raise'):
+            if ex[2] in ('abort', 'raise'):
+                continue
+            if not final and not collector:
+                # a search (is_essential) or a memoised count may stop
+                # early; a collector may not: whatever it has not looked
+                # at is missing from the collection
                 continue
             visited = set()
             for it in path:
@@ -856,3 +868,108 @@ def r_dddmp(P, R):
                 'its nodes in any order)', unit=ld.unit.rel,
                 line=c.lineno)
 r_dddmp.NAME = 'R-ARGS(DDDMP tables and rebuild order)'
+
+
+# ------------------------------------------------ quantified variable sets
+def walk_shape(P, f, depth=0):
+    """'full' | 'single-path' | None for a function that collects
+    something from the diagram below a reference."""
+    fn = f.node
+    names = {au.call_name(c) for c in au.calls_in(fn)}
+    if names & {'support', '_support', 'descendants', '_descendants'}:
+        return 'full'
+    cn = child_names(fn)
+    if cn is None:
+        return None
+    unpack, lo, hi = cn
+    # recursion into both successors
+    rec = [c for c in au.calls_in(fn) if au.call_name(c) == f.name]
+    seen = {a.id for c in rec for a in c.args if isinstance(a, ast.Name)}
+    if {lo, hi} <= seen:
+        return 'full'
+    # a loop that moves one cursor to one successor per iteration
+    for loop in au.walk_no_defs(fn):
+        if not isinstance(loop, ast.While):
+            continue
+        if not any(x is unpack for x in ast.walk(loop)):
+            continue
+        subj = None
+        sl = unpack.value.slice
+        subj = au.is_abs_of(sl) or (sl.id if isinstance(sl, ast.Name)
+                                    else None)
+        moves = [s for s in au.walk_no_defs(loop)
+                 if isinstance(s, ast.Assign) and subj is not None
+                 and au.is_name(s.targets[0], subj)]
+        work = [c for c in au.calls_in(loop)
+                if au.call_name(c) in ('append', 'add', 'extend', 'push',
+                                       'update')
+                and any(isinstance(a, ast.Name) and a.id in (lo, hi)
+                        for a in ast.walk(c))]
+        if moves and not work:
+            return 'single-path'
+        if work:
+            both = {a.id for c in work for a in ast.walk(c)
+                    if isinstance(a, ast.Name)} & {lo, hi}
+            return 'full' if both == {lo, hi} else 'single-path'
+    return None
+
+
+def quant_vars(P, R):
+    """`apply('\\\\A', u, v)` quantifies every variable that occurs in `u`:
+    the variable set has to come from a walk over the whole diagram of
+    `u`, not from one path through it."""
+    f = P.func('dd.bdd.BDD.apply')
+    n = 0
+    for c in au.calls_in(f.node, 'quantify'):
+        if len(c.args) < 2:
+            continue
+        qv = c.args[1]
+        src = qv
+        if isinstance(qv, ast.Name):
+            au.set_parents(f.node)
+            # the assignment in the same arm
+            blk = None
+            p = getattr(c, '_parent', None)
+            while p is not None and not isinstance(p, ast.If):
+                p = getattr(p, '_parent', None)
+            cands = [s for s in (p.body if p is not None else f.node.body)
+                     if isinstance(s, ast.Assign)
+                     and au.is_name(s.targets[0], qv.id)]
+            if len(cands) == 1:
+                src = cands[0].value
+        if not isinstance(src, ast.Call):
+            R.undecided('R-ARGS', f.qualname,
+                        f'quantified variables `{au.short(qv)}`',
+                        'not the result of a call')
+            continue
+        n += 1
+        name = au.call_name(src)
+        g = P.func(f'dd.bdd.BDD.{name}', required=False)
+        shape = None
+        if name == 'support':
+            shape = 'full'
+        elif g is not None:
+            shape = walk_shape(P, g)
+        if shape == 'full':
+            R.holds('R-ARGS', f.qualname,
+                    f'`{au.short(c, 50)}`: variables collected by a walk '
+                    f'over the whole diagram (`{name}`)')
+        elif shape == 'single-path':
+            R.violation(
+                'R-ARGS', 'variables-of-one-path', f.qualname, name,
+                f'`{au.short(src)}` collects the quantified variables '
+                f'along one path of the first operand ({g.qualname} moves '
+                'a single cursor to one successor per step): a variable '
+                'that occurs only off that path is not quantified - right '
+                'for a cube, wrong for any other first operand',
+                unit=f.unit.rel, line=src.lineno)
+        else:
+            R.undecided('R-ARGS', f.qualname,
+                        f'quantified variables from `{au.short(src)}`',
+                        'shape of the walk not recognised')
+    R.floor('R-ARGS quantifier arms of BDD.apply', n, 2)
+
+
+def r_quant_vars(P, R):
+    quant_vars(P, R)
+r_quant_vars.NAME = 'R-ARGS(quantified variables)'
